@@ -37,6 +37,7 @@ def strategy(tier):
         p_multi_joint=st.sampled_from([0.0, 0.4]),
         dynamics=True,
         poly=st.booleans(),
+        free_stiffness=st.booleans(),
         gravcomp=st.booleans(),
         fluid=st.booleans(),
         tendons=st.integers(0, 2),
